@@ -1,1 +1,76 @@
-fn main() { eprintln!("engine not built yet"); std::process::exit(2); }
+mod app;
+mod build;
+mod dsl;
+mod hosts;
+mod refmodel;
+mod seqx;
+
+use hosts::HostKind;
+
+fn dev(args: &[String]) {
+    let host = match args.get(0).map(String::as_str) {
+        Some("stream") => HostKind::StreamPoll,
+        Some("core") => HostKind::CoreCmd,
+        Some("legacy") => HostKind::CoreLegacy,
+        Some("bincode") => HostKind::Bincode,
+        Some("json") => HostKind::Json,
+        _ => HostKind::Direct,
+    };
+    let n: usize = args.get(1).and_then(|s| s.parse().ok()).unwrap_or(2);
+    let depth: usize = args.get(2).and_then(|s| s.parse().ok()).unwrap_or(5);
+    let aborts: u8 = args.get(3).and_then(|s| s.parse().ok()).unwrap_or(0);
+    let g = if aborts > 0 { dsl::Grammar::with_abort() } else { dsl::Grammar::plain() };
+    let progs = dsl::terms_up_to(n, &dsl::all_atoms(), g);
+    let progs: Vec<_> = progs
+        .into_iter()
+        .filter(|p| host != HostKind::CoreLegacy || app::legacy_ok(p))
+        .collect();
+    let bounds = seqx::Bounds {
+        depth,
+        items_per_stream: 2,
+        max_aborts: aborts,
+        max_silent: 1,
+        max_late: 1,
+        abort_before_start: true,
+    };
+    eprintln!("{} programs", progs.len());
+    let t0 = std::time::Instant::now();
+    let results = mc_kit::par_map(&progs, |_, p| {
+        let mut ex = seqx::Explorer::new(host, p, &bounds);
+        ex.node_cap = 2_000_000;
+        ex.run();
+        (ex.stats.clone(), ex.found.into_iter().map(|f| (f.failure, f.history)).collect::<Vec<_>>())
+    });
+    let mut total = seqx::Stats::default();
+    let mut keys = std::collections::BTreeMap::<String, (usize, String)>::new();
+    for (i, (st, found)) in results.iter().enumerate() {
+        total.merge(st);
+        for (f, h) in found {
+            let e = keys.entry(f.key.clone()).or_insert((0, String::new()));
+            e.0 += 1;
+            let desc = format!("{:?}\n    history {:?}\n    {}", progs[i], h.iter().map(seqx::step_json).collect::<Vec<_>>(), f.what);
+            if e.1.is_empty() || desc.len() < e.1.len() {
+                e.1 = desc;
+            }
+        }
+    }
+    for (k, (n, d)) in &keys {
+        println!("== {k} ×{n}\n    {d}");
+    }
+    println!(
+        "programs {} states {} transitions {} histories {} steps {} max_alts {} max_depth {} outcomes {} capped {} in {:.1}s",
+        total.programs, total.states, total.transitions, total.histories, total.steps_executed, total.max_alts,
+        total.max_depth, total.outcomes.len(), total.capped, t0.elapsed().as_secs_f64()
+    );
+}
+
+fn main() {
+    let args: Vec<String> = std::env::args().skip(1).collect();
+    match args.first().map(String::as_str) {
+        Some("dev") => dev(&args[1..]),
+        _ => {
+            eprintln!("engine not built yet");
+            std::process::exit(2);
+        }
+    }
+}
